@@ -142,4 +142,78 @@ example : sessionUsable false ⟨true⟩ true true = true := rfl
 example : clientAcceptsWithCache false .tls13 (some (sessionOf ⟨true, true, false⟩)) ⟨true, true, true⟩ ⟨true, true, true⟩ = true := rfl
 example : serverAcceptsWithTicket .requireAndVerify (some true) true ⟨true, true, true⟩ = true := rfl
 
+/-! ## verification hooks (`VerifyPeerCertificate`, `VerifyConnection`) -/
+
+/-- Permissive callbacks (absent, or installed and returning nil) change nothing: the decision is exactly the decision
+    without them. -/
+theorem client_permissive_hooks_same (vpc vc : Hook) (skip : Bool) (kex : Kex) (c : ServerCred)
+    (hp : vpc.allows = true) (hc : vc.allows = true) :
+    clientAcceptsH vpc vc skip kex c = clientAccepts skip kex c := by
+  simp [clientAcceptsH, clientAccepts, hp, hc]
+
+/-- Whatever the callbacks return they only ever restrict: acceptance with hooks implies acceptance without. -/
+theorem client_hooks_only_restrict (vpc vc : Hook) (skip : Bool) (kex : Kex) (c : ServerCred)
+    (h : clientAcceptsH vpc vc skip kex c = true) : clientAccepts skip kex c = true := by
+  cases vpc <;> cases vc <;> cases skip <;> cases kex <;> cases c with
+  | mk a b d => cases a <;> cases b <;> cases d <;> simp_all [clientAcceptsH, clientAccepts, possession, Hook.allows]
+
+/-- A verifying client refuses every bad server also with callbacks installed, whatever they return … -/
+theorem bad_server_rejected_with_hooks (vpc vc : Hook) (kex : Kex) (c : ServerCred)
+    (hbad : c.chainOK = false ∨ c.keyMatches = false ∨ (kex ≠ .rsa ∧ c.sigIntact = false)) :
+    clientAcceptsH vpc vc false kex c = false := by
+  have h := bad_server_rejected kex c hbad
+  cases hh : clientAcceptsH vpc vc false kex c with
+  | false => rfl
+  | true => rw [client_hooks_only_restrict vpc vc false kex c hh] at h; cases h
+
+/-- … and when normal verification fails the callbacks are not even considered (the documented order). -/
+theorem hooks_not_run_when_verification_fails (vpc vc : Hook) (c : ServerCred) (hbad : c.chainOK = false) :
+    clientVpcRuns vpc false c = false ∧ clientVcRuns vpc vc false c = false := by
+  simp [clientVpcRuns, clientVcRuns, hbad]
+
+/-- A callback that returns an error aborts the client's handshake. -/
+theorem client_rejecting_hook_aborts (vpc vc : Hook) (skip : Bool) (kex : Kex) (c : ServerCred)
+    (h : vpc = .reject ∨ vc = .reject) : clientAcceptsH vpc vc skip kex c = false := by
+  rcases h with rfl | rfl <;> cases skip <;> cases c with
+  | mk a b d => cases a <;> simp [clientAcceptsH, Hook.allows]
+
+/-- Server side: permissive callbacks leave the decision table of `processCertsFromClient` + CertificateVerify unchanged. -/
+theorem server_permissive_hooks_same (vpc vc : Hook) (m : Mode) (o : ClientOffer)
+    (hp : vpc.allows = true) (hc : vc.allows = true) : serverAcceptsH vpc vc m o = serverAccepts m o := by
+  cases m <;> simp [serverAcceptsH, serverAccepts, hp, hc, Mode.toNat]
+
+/-- … and in general they only restrict. -/
+theorem server_hooks_only_restrict (vpc vc : Hook) (m : Mode) (o : ClientOffer)
+    (h : serverAcceptsH vpc vc m o = true) : serverAccepts m o = true := by
+  cases vpc <;> cases vc <;> cases m <;> cases o with
+  | mk a b d => cases a <;> cases b <;> cases d <;>
+      simp_all [serverAcceptsH, serverAccepts, requiresClientCert, Mode.toNat, Hook.allows]
+
+/-- the two client-authentication sentences with callbacks installed (corollaries) -/
+theorem clientauth_with_hooks (vpc vc : Hook) (m : Mode) (o : ClientOffer) (h : serverAcceptsH vpc vc m o = true) :
+    (requiresClientCert m = true → o.hasCert = true ∧ o.cvValid = true) ∧
+    ((m = .verifyIfGiven ∨ m = .requireAndVerify) → o.hasCert = true → o.chainOK = true ∧ o.cvValid = true) :=
+  have h0 := server_hooks_only_restrict vpc vc m o h
+  ⟨fun hr => clientauth_required_possession m o hr h0, fun hm hc => clientauth_verify_chain m o hm hc h0⟩
+
+/-- the server's `VerifyPeerCertificate` is reached only when the certificate checks passed: never with a presented
+    chain that does not verify under a verifying policy, never without a certificate under a requiring one -/
+theorem server_hook_not_reached_when_checks_fail (m : Mode) (o : ClientOffer) :
+    ((m = .verifyIfGiven ∨ m = .requireAndVerify) → o.hasCert = true → o.chainOK = false → serverCertChecksPass m o = false) ∧
+    (requiresClientCert m = true → o.hasCert = false → serverCertChecksPass m o = false) := by
+  cases m <;> cases o with
+  | mk a b d => cases a <;> cases b <;> cases d <;> simp [serverCertChecksPass, requiresClientCert, Mode.toNat]
+
+/-- a rejecting server callback aborts: `VerifyConnection` in every mode, `VerifyPeerCertificate` whenever certificates are requested -/
+theorem server_rejecting_hook_aborts (vpc vc : Hook) (m : Mode) (o : ClientOffer)
+    (h : vc = .reject ∨ (vpc = .reject ∧ m ≠ .noClientCert)) : serverAcceptsH vpc vc m o = false := by
+  rcases h with rfl | ⟨rfl, hm⟩ <;> cases m <;> cases o with
+  | mk a b d => cases a <;> cases b <;> cases d <;> simp_all [serverAcceptsH, requiresClientCert, Mode.toNat, Hook.allows]
+
+example : clientAcceptsH .permit .permit false .tls13 ⟨true, true, true⟩ = true := rfl
+example : Hook.allows .permit = true ∧ Hook.allows .absent = true := ⟨rfl, rfl⟩
+example : serverAcceptsH .permit .permit .requireAndVerify ⟨true, true, true⟩ = true := rfl
+example : requiresClientCert .requireAny = true ∧ (⟨false, false, false⟩ : ClientOffer).hasCert = false := ⟨rfl, rfl⟩
+example : (⟨false, true, true⟩ : ServerCred).chainOK = false := rfl
+
 end ZV.C27
